@@ -414,9 +414,6 @@ fn decode_to_sink<Sink, A>(
             },
         }
         input.pop_front(bytes_read as u32);
-        if input.is_empty() {
-            return;
-        }
     }
 }
 
